@@ -68,8 +68,8 @@ def gen(ctx):
         f = _simulate(rng, n)
         cases.append({"fn": "pipeline", "files": [f], "folds": rng.randint(2, 5), "seed": rng.randint(0, 10 ** 6),
                       "test_fdr": "0.25", "train_fdr": 0.25, "learner": "memoriser", "workers": rng.choice([1, 3]),
-                      "subset_max_train": None, "chunks": {}, "fmt": "tsv", "row_group": None, "est_mode": "decision",
-                      "tags": ["pipeline", "memoriser"]})
+                      "subset_max_train": rng.choice([None, n // 3, n // 2]), "chunks": {}, "fmt": "tsv", "row_group": None,
+                      "est_mode": "decision", "tags": ["pipeline", "memoriser"]})
     return cases
 
 
